@@ -16,7 +16,7 @@ Qed.
 Theorem view_add_linear_energy d v b base y :
   energy (view_add_linear d v b base) y = energy base y + b * view_value d (y v).
 Proof.
-  destruct d; unfold view_add_linear, view_value;
+  destruct d; unfold view_add_linear, view_value; cbn [gen_add_linear];
     rewrite energy_add_offset, energy_add_linear; ring.
 Qed.
 
@@ -28,7 +28,7 @@ Theorem view_add_quadratic_energy d u v b base y :
   energy (view_add_quadratic d u v b base) y
   = energy base y + b * view_value d (y u) * view_value d (y v).
 Proof.
-  destruct d; unfold view_add_quadratic, view_value;
+  destruct d; unfold view_add_quadratic, view_value; cbn [gen_add_quadratic];
     rewrite energy_add_offset, !energy_add_linear, energy_addq.
   - transitivity (energy base y + b * quarter * ((y u + 1) * (y v + 1))); [ring|].
     unfold quarter. ring.
